@@ -781,6 +781,22 @@ Fixpoint run (v : env) (s : st) (ops : list op) : list result :=
   | o :: r => let '(s', res) := step v s o in res :: run v s' r
   end.
 
+(* ------------------------------------------------------------------ process crash (completed writes persist) *)
+(* A crash between two operations leaves exactly the disk image and the persisted read
+   positions of that moment; a fresh process then opens the directory: [reopen].
+   A crash INSIDE a batch append after the writes of its first [j] entries completed (the
+   io_uring path submits one write per entry; the mmap path writes them in order): the plan
+   has allocated what it needed and those j entries are on disk, nothing is published. *)
+Definition batch_crash (c : Cfg) (s : st) (t : topic) (es : list entry) (j : nat) : st :=
+  let '(s1, w) := ensure_writer c s t in
+  let '(s2, _, _, _) := batch_plan c s1 t w false (firstn j es) in
+  reopen c s2.
+
+Definition stream_of (s : st) (t : N) : list entry :=
+  let ts := get_ts s t in
+  flat_map b_ents (match ts_reader ts with Some r => r_chain r | None => [] end)
+  ++ match ts_writer ts with Some w => b_ents w | None => [] end.
+
 Definition unmodelled (s : st) (t : N) : bool := ts_unmodelled (get_ts s t).
 
 Definition any_unmodelled (s : st) : bool := existsb (fun p => ts_unmodelled (snd p)) (s_topics s).
